@@ -47,6 +47,19 @@ Definition C13_gen (Gconsistent : mtype -> list (list N * pval) -> Prop)
             then ORequest (match aget k_id data with Some i => i | None => PNull end)
                           (MTyped (TRegistryMsg r) o)
             else ONotification (MTyped (TRegistryMsg r) o))) /\
+  (* ... at its place in a stream of frames, whatever frames (good, rejected, undecodable) precede it *)
+  (forall obj structure reg st pre post kvs data m r (o : obj),
+     Gnested (JObj kvs) ->
+     embed (JObj kvs) = PDict data ->
+     aget k_jsonrpc data = Some (PStr s_version) -> amem k_error data = false ->
+     aget k_method data = Some (PStr m) -> find_method reg m = Some r ->
+     m_request r = amem k_id data ->
+     structure (m_msg_type r) (embed (JObj kvs)) = SOk o ->
+     nth_error (receive_stream obj structure reg st (pre ++ FJson (JObj kvs) :: post)) (length pre)
+     = Some (if m_request r
+             then ORequest (match aget k_id data with Some i => i | None => PNull end)
+                           (MTyped (TRegistryMsg r) o)
+             else ONotification (MTyped (TRegistryMsg r) o))) /\
   (* ... also when pygls has a built-in handler for the method: the user's feature is called once,
      after the built-in, with that same object (built-ins do not write to params) *)
   (forall obj bst (builtin : list N -> obj -> bst -> bst) hb m p s,
@@ -113,6 +126,7 @@ Proof.
   - intros. eapply route_is_classify; eassumption.
   - exact id_presence_not_value.
   - intros. eapply handler_gets_structure; eassumption.
+  - intros. eapply stream_frame_delivered; eassumption.
   - intros. apply user_feature_gets_params.
   - intros. eapply reply_structured_as_requested; eassumption.
   - intros. apply generic_leaves_reachable; assumption.
@@ -181,7 +195,7 @@ Proof. eexists. eexists. split; [vm_compute; reflexivity|split; reflexivity]. Qe
 
 Theorem C13_refuted : ~ C13_statement.
 Proof.
-  intros (_ & _ & _ & _ & _ & _ & H & _).
+  intros (_ & _ & _ & _ & _ & _ & _ & H & _).
   destruct (H w_type_name eq_refl I) as (o & Ho & Hl).
   specialize (Hl [Key (S "type_name")] (JStr (S "Foo"))).
   assert (In ([Key (S "type_name")], JStr (S "Foo")) (spec_leaves w_type_name)) as Hin
@@ -220,7 +234,7 @@ Example C13_nonvacuous :
              m_res_type r = Some (S "HoverResponse")) /\
   (exists h, In h helper_table /\ h_name h = S "text_document_hover_async" /\
              h_kind h = HSendRequestAsync /\ h_side h = Client) /\
-  spec_kind true true false = Some KRequest.
+  spec_kind true true false = Some KRequest /\ spec_kind true true true = Some KErrorResponse.
 Proof.
   split; [reflexivity|split; [reflexivity|split; [vm_compute; auto|split; [|split]]]].
   - eexists. split; [vm_compute; reflexivity|split; reflexivity].
@@ -232,7 +246,7 @@ Proof.
     apply andb_true_iff in E as [E E3]. apply andb_true_iff in E as [E1 E2].
     exists h. repeat split; [exact Hin|apply str_eqb_eq; exact E1|apply hkind_eqb_eq; exact E2|
                              apply side_eqb_eq; exact E3].
-  - reflexivity.
+  - split; reflexivity.
 Qed.
 
 (* falsy ids are ids: a reply under id 0 / "" resolves the request sent under that id, a request
